@@ -127,7 +127,7 @@ func (o *OracleC16) OnOut(n *Node, st *Step, out *Out) {
 			cur := c16Prop{at: s.now, ntx: len(pr.Hashes), view: p.V}
 			o.props[p.H] = cur
 			prev, ok := o.props[p.H-1]
-			if !ok || p.H <= o.first || p.H == 1 {
+			if !ok || p.H <= o.first {
 				return // the first height after Start is excluded: the primary proposes at once by design
 			}
 			gap := cur.at - prev.at
@@ -147,7 +147,7 @@ func (o *OracleC16) OnOut(n *Node, st *Step, out *Out) {
 				s.note("proposal_inside_extended_wait")
 			}
 		case dbft.ChangeViewType, dbft.RecoveryRequestType:
-			if p.H <= o.first || p.H == 1 {
+			if p.H <= o.first {
 				return
 			}
 			if o.poolEmpty(n) {
